@@ -25,7 +25,9 @@
                        waiting.  Not anchored in a listed property (a deliberate fail-stop of the code); kept as a
                        named deviation so that the model says what the code does.                                        *)
 EXTENDS Integers, Sequences, FiniteSets, TLC
-CONSTANTS Cap, MaxBlocks, MaxRuns, Clients, BadArgs, MixDepth, MixAnyTime, UncheckedLengths, SilencePanics
+CONSTANTS Cap, MaxBlocks, MaxRuns, Clients, BadArgs, MixDepth, MixAnyTime, UncheckedLengths, SilencePanics,
+          MaxFails,          \* how many Starts fail in PrepareChannels (a channel separation too small for the card geometry: accepted by Configure, refused - and repaired - by PrepareChannels)
+          FailedStartStuck   \* deviation (FALSE = as the code is): that error path of Start forgets to set the state back to Inactive
 VARIABLES hw,        \* "flowing" | "silent"
           rd,        \* reader goroutine: "run" | "done"
           buf,       \* items in buffersChan
@@ -35,7 +37,8 @@ VARIABLES hw,        \* "flowing" | "silent"
           nbClosed,  \* nextBlock closed
           abort,     \* abortSelf closed
           collOn,    \* collector and adapter of the card running (StartRun sets, ls.stop() clears)
-          st,        \* "Active" | "Stopping" | "Inactive"
+          st,        \* "Active" | "Stopping" | "Inactive" ("Starting" only as the stuck state of the deviation FailedStartStuck)
+          nfail,     \* failed Starts so far
           kpc,       \* the one Stop caller: "idle" | "waiting" | "returned"
           made,      \* blocks produced in this run (bound)
           gen,       \* number of starts so far; 0 = Sample() never ran: the mix channels are nil
@@ -44,12 +47,12 @@ VARIABLES hw,        \* "flowing" | "silent"
           mpc,       \* per client: "idle" | "sending" | "waiting" | "returned" | "refused"
           mgen,      \* per client: generation of the channels it is using
           panicked
-vars == <<hw, rd, buf, bclosed, gn, core, nbClosed, abort, collOn, st, kpc, made, gen, mixq, mixr, mpc, mgen, panicked>>
-run == <<rd, buf, bclosed, gn, core, nbClosed, abort, collOn, st, made>>
+vars == <<hw, rd, buf, bclosed, gn, core, nbClosed, abort, collOn, st, nfail, kpc, made, gen, mixq, mixr, mpc, mgen, panicked>>
+run == <<rd, buf, bclosed, gn, core, nbClosed, abort, collOn, st, nfail, made>>
 mix == <<mixq, mixr, mpc, mgen>>
 
 Init == /\ hw = "flowing" /\ rd = "done" /\ buf = 0 /\ bclosed = FALSE /\ gn = "none" /\ core = "gone" /\ nbClosed = FALSE
-        /\ abort = FALSE /\ collOn = FALSE /\ st = "Inactive" /\ kpc = "idle" /\ made = 0 /\ gen = 0
+        /\ abort = FALSE /\ collOn = FALSE /\ st = "Inactive" /\ nfail = 0 /\ kpc = "idle" /\ made = 0 /\ gen = 0
         /\ mixq = <<>> /\ mixr = 0 /\ mpc = [c \in Clients |-> "idle"] /\ mgen = [c \in Clients |-> 0] /\ panicked = FALSE
 Live == ~panicked
 AllGone == rd = "done" /\ gn = "none" /\ core = "gone"
@@ -60,28 +63,33 @@ StartOK == /\ Live /\ st = "Inactive" /\ AllGone /\ ~collOn /\ gen < MaxRuns /\ 
            /\ gen' = gen + 1 /\ mixq' = <<>> /\ mixr' = 0
            /\ rd' = "run" /\ buf' = 0 /\ bclosed' = FALSE /\ gn' = "none" /\ core' = "call" /\ nbClosed' = FALSE
            /\ abort' = FALSE /\ collOn' = TRUE /\ st' = "Active" /\ kpc' = "idle" /\ made' = 0
-           /\ UNCHANGED <<hw, mpc, mgen, panicked>>
+           /\ UNCHANGED <<hw, nfail, mpc, mgen, panicked>>
+\* Start() that fails in PrepareChannels: Sample has run (card sampled and stopped again, mix channels re-made), nothing was launched
+StartFail == /\ Live /\ st = "Inactive" /\ AllGone /\ ~collOn /\ gen < MaxRuns /\ nfail < MaxFails /\ kpc # "waiting"
+             /\ nfail' = nfail + 1 /\ gen' = gen + 1 /\ mixq' = <<>> /\ mixr' = 0
+             /\ st' = (IF FailedStartStuck THEN "Starting" ELSE "Inactive")
+             /\ UNCHANGED <<hw, rd, buf, bclosed, gn, core, nbClosed, abort, collOn, kpc, made, mpc, mgen, panicked>>
 StopCall == /\ Live /\ kpc = "idle" /\ gen > 0
             /\ IF st = "Active" THEN st' = "Stopping" /\ abort' = TRUE /\ kpc' = "waiting"
                ELSE kpc' = "returned" /\ UNCHANGED <<st, abort>>
-            /\ UNCHANGED <<hw, rd, buf, bclosed, gn, core, nbClosed, collOn, made, gen, mix, panicked>>
+            /\ UNCHANGED <<hw, rd, buf, bclosed, gn, core, nbClosed, collOn, nfail, made, gen, mix, panicked>>
 StopWaited == Live /\ kpc = "waiting" /\ core = "gone" /\ kpc' = "returned"
               /\ UNCHANGED <<hw, run, gen, mix, panicked>>
 
 \* --------------------------------------------------------------------------------------------- the data chain
 HwSilence == Live /\ hw = "flowing" /\ st = "Active" /\ hw' = "silent" /\ UNCHANGED <<run, kpc, gen, mix, panicked>>
 ReaderTick == Live /\ rd = "run" /\ hw = "flowing" /\ buf < Cap /\ made < MaxBlocks /\ buf' = buf + 1 /\ made' = made + 1
-              /\ UNCHANGED <<hw, rd, bclosed, gn, core, nbClosed, abort, collOn, st, kpc, gen, mix, panicked>>
+              /\ UNCHANGED <<hw, rd, bclosed, gn, core, nbClosed, abort, collOn, st, nfail, kpc, gen, mix, panicked>>
 ReaderAbort == Live /\ rd = "run" /\ abort /\ rd' = "done" /\ bclosed' = TRUE
-               /\ UNCHANGED <<hw, buf, gn, core, nbClosed, abort, collOn, st, kpc, made, gen, mix, panicked>>
+               /\ UNCHANGED <<hw, buf, gn, core, nbClosed, abort, collOn, st, nfail, kpc, made, gen, mix, panicked>>
 ReaderPanic == Live /\ SilencePanics /\ rd = "run" /\ hw = "silent" /\ ~abort /\ panicked' = TRUE
                /\ UNCHANGED <<hw, run, kpc, gen, mix>>
 CoreCall == Live /\ core = "call" /\ gn = "none" /\ gn' = "wait" /\ core' = "select"
-            /\ UNCHANGED <<hw, rd, buf, bclosed, nbClosed, abort, collOn, st, kpc, made, gen, mix, panicked>>
+            /\ UNCHANGED <<hw, rd, buf, bclosed, nbClosed, abort, collOn, st, nfail, kpc, made, gen, mix, panicked>>
 GnTake == Live /\ gn = "wait" /\ buf > 0 /\ buf' = buf - 1 /\ gn' = "send"
-          /\ UNCHANGED <<hw, rd, bclosed, core, nbClosed, abort, collOn, st, kpc, made, gen, mix, panicked>>
+          /\ UNCHANGED <<hw, rd, bclosed, core, nbClosed, abort, collOn, st, nfail, kpc, made, gen, mix, panicked>>
 GnClosed == Live /\ gn = "wait" /\ buf = 0 /\ bclosed /\ gn' = "none" /\ nbClosed' = TRUE /\ collOn' = FALSE      \* ls.stop()
-            /\ UNCHANGED <<hw, rd, buf, bclosed, core, abort, st, kpc, made, gen, mix, panicked>>
+            /\ UNCHANGED <<hw, rd, buf, bclosed, core, abort, st, nfail, kpc, made, gen, mix, panicked>>
 GnPanic == Live /\ SilencePanics /\ gn = "wait" /\ buf = 0 /\ ~bclosed /\ mixq = <<>> /\ hw = "silent" /\ panicked' = TRUE
            /\ UNCHANGED <<hw, run, kpc, gen, mix>>
 \* the getNextBlock goroutine serves one mix request and goes round its loop again
@@ -91,11 +99,11 @@ GnMix == /\ Live /\ gn = "wait" /\ mixq # <<>> /\ mixr < MixDepth        \* (cur
             ELSE mixr' = mixr + 1 /\ panicked' = panicked
          /\ UNCHANGED <<hw, run, kpc, gen, mpc, mgen>>
 CoreTakeBlock == Live /\ core = "select" /\ gn = "send" /\ gn' = "none" /\ core' = "blk"
-                 /\ UNCHANGED <<hw, rd, buf, bclosed, nbClosed, abort, collOn, st, kpc, made, gen, mix, panicked>>
+                 /\ UNCHANGED <<hw, rd, buf, bclosed, nbClosed, abort, collOn, st, nfail, kpc, made, gen, mix, panicked>>
 CoreBlockDone == Live /\ core = "blk" /\ core' = "call"
-                 /\ UNCHANGED <<hw, rd, buf, bclosed, gn, nbClosed, abort, collOn, st, kpc, made, gen, mix, panicked>>
+                 /\ UNCHANGED <<hw, rd, buf, bclosed, gn, nbClosed, abort, collOn, st, nfail, kpc, made, gen, mix, panicked>>
 CoreSeeClosed == Live /\ core = "select" /\ nbClosed /\ core' = "gone" /\ st' = "Inactive"
-                 /\ UNCHANGED <<hw, rd, buf, bclosed, gn, nbClosed, abort, collOn, kpc, made, gen, mix, panicked>>
+                 /\ UNCHANGED <<hw, rd, buf, bclosed, gn, nbClosed, abort, collOn, nfail, kpc, made, gen, mix, panicked>>
 
 \* --------------------------------------------------------------------------------------------- mix-fraction clients
 Refuse(c) == mpc' = [mpc EXCEPT ![c] = "refused"] /\ UNCHANGED <<mixq, mixr, mgen>>
@@ -117,7 +125,7 @@ MixRecv(c) == /\ Live /\ mpc[c] = "waiting" /\ mgen[c] = gen /\ mixr > 0
 MixGiveUp(c) == /\ Live /\ ~MixAnyTime /\ mpc[c] \in {"sending", "waiting"} /\ (st = "Inactive" \/ mgen[c] # gen)
                 /\ Refuse(c) /\ UNCHANGED <<hw, run, kpc, gen, panicked>>
 
-Next == StartOK \/ StopCall \/ StopWaited \/ HwSilence \/ ReaderTick \/ ReaderAbort \/ ReaderPanic \/ CoreCall \/ GnTake
+Next == StartOK \/ StartFail \/ StopCall \/ StopWaited \/ HwSilence \/ ReaderTick \/ ReaderAbort \/ ReaderPanic \/ CoreCall \/ GnTake
         \/ GnClosed \/ GnPanic \/ GnMix \/ CoreTakeBlock \/ CoreBlockDone \/ CoreSeeClosed
         \/ \E c \in Clients : MixCall(c) \/ MixSend(c) \/ MixRecv(c) \/ MixGiveUp(c)
 Spec == Init /\ [][Next]_vars
@@ -132,6 +140,8 @@ C10_no_stuck == (Terminal /\ ~panicked) => (core = "gone" \/ (kpc = "idle" /\ (h
 C11_mix_answered == (Terminal /\ ~panicked) => \A c \in Clients : mpc[c] \in {"idle", "returned", "refused"}
 \* C11: no request content takes the server down (checked with SilencePanics = FALSE: the only panic left is the request's)
 C11_no_crash == ~panicked
+\* C10: a Start that failed leaves the source inactive (and so able to be started later)
+C10_failed_start_clean == st # "Starting"
 \* a well-formed request made while the source is active and not being stopped is answered with the mix, not refused
 \* (the design variant must not "fix" the hang by refusing everything)
 MixServedWhileRunning == \A c \in Clients : (mpc[c] = "refused" /\ c \notin BadArgs) => ~MixAnyTime
